@@ -1,10 +1,11 @@
 //! C13 — UAC INVITE: responses map deterministically to early dialogs, sessions, failure
 //!
-//! **Generated.** One INVITE is sent through `Initiator` over a mock transport under the paused clock; a case is
+//! **Generated.** An INVITE is sent through `Initiator` over a mock transport under the paused clock; a case is
 //! * a history of 1..10 responses (status from {100,180,183,199,200,202,300,404,486,603}; To-tag none / one of 3
-//!   forks; Contact present 93 %; 0..3 Record-Route; Supported timer/100rel; Require+RSeq; Session-Expires) at gaps
-//!   1..31000 ms, each carrying a unique `X-Seq` marker; a quarter of the random cases are "chatty": 6..14 responses,
-//!   mostly 101-199 of fork 0 at gaps 1..450 ms,
+//!   forks; Contact present 93 % / absent 6 % / present but unparsable 1 %; 0..3 Record-Route; Supported
+//!   timer/100rel; Require+RSeq; Session-Expires) at gaps 1..31000 ms, each carrying a unique `X-Seq` marker; of the
+//!   random cases 2/15 are "chatty" (6..14 responses, mostly 101-199 of fork 0 at gaps 1..450 ms) and 2/15 "shaky"
+//!   (2..8 responses, mostly 101-299 of forks 0/1, Contact absent 35 % / unparsable 10 %),
 //! * the SPELLING of the forks' To-tags (`tags`, see `TAG_FAMILIES`): plain `t0 t1 t2`, tags that differ only in
 //!   letter case, tags that are prefixes of each other, tags differing in one punctuation character of the token
 //!   alphabet, long tags differing in the last character only, numeric look-alikes (`1`, `01`, `1.0`). To-tags are
@@ -19,15 +20,32 @@
 //! * the APPLICATION's polling schedule of the early dialogs (`early_lag`): `early_lag[j]` ms pass between the
 //!   application being handed the `Early` of fork j and its first `Early::receive` on it (0, 7 ms .. 70 s); from then
 //!   on it polls that `Early` continuously and lets go of it when it yields a session or `Terminated`. Until then
-//!   everything the initiator forwards to that early dialog piles up (1, 2, ... 10+ events, i.e. past any queue size).
+//!   everything the initiator forwards to that early dialog piles up (1, 2, ... 10+ events, i.e. past any queue size),
+//! * what the APPLICATION does when `Initiator::receive` returns an ERROR (`go_on_after_error`; the only in-domain
+//!   cause is a 101-299 of a new To-tag that cannot create its dialog because it has no usable Contact): it gives up
+//!   (15 % of the random cases; nothing is asserted from there on) or calls `receive` again at once, so that further
+//!   responses OF THE SAME To-tag (a complete 18x, the 2xx) and of other forks follow the rejected one,
+//! * how many INVITEs the application sends through the SAME `Initiator` (`next`, a third of the random cases): when
+//!   an INVITE failed (3xx-6xx reported, no session) it calls `create_invite` + `send_invite` again, as
+//!   examples/send_invite.rs does after a 401, right after it has dealt with the failure or after it has polled
+//!   `Finished` (`resend_after_finished`); up to 3 INVITEs. The peer answers each INVITE with a history of its own and
+//!   RE-USES its To-tags (same tag family). The `Early` objects of the failed INVITE that reported `Terminated` are
+//!   dropped or kept around unpolled (`hold_terminated`); those the application has not even started to poll
+//!   (`early_lag`) stay alive into the next INVITE.
 //! Sub-checks: `exhaustive` = every history of length <= 4 (thorough 5) over {100,180,200,486} x {no tag,t0,t1},
 //! UDP, continuous polling; `exhaustive-variants` = every history of length <= 3 (thorough 4) over the same alphabet
 //! under each of: case-variant tags, prefix tags, 33 s busy after every / only the first / only the second response,
 //! 600 ms busy after every response, reliable transport, every Early polled 33 s late, reliable + 600 ms busy + every
 //! Early 613 ms late; `lazy-early` = 180 of fork 0, k = 0..8 (thorough 12) further 101-199 of fork 0, one of 7 endings
 //! (nothing / 200 of the fork / 200 of another fork / 486 / 18x+2xx of another fork then the fork's 2xx / 2xx twice /
-//! another fork's 18x,18x,603) x 5 lag vectors x gaps 1 / 450 ms x both transports; `random` = sampled histories with
-//! all dimensions.
+//! another fork's 18x,18x,603) x 5 lag vectors x gaps 1 / 450 ms x both transports; `retry` = first INVITE: one of 6
+//! preludes (nothing / 180 t0 / 180 t1 / both / 180+183 t0 / 100) + 486 without tag or 404 of t0, second INVITE: every
+//! history of length <= 2 (thorough 3) over the alphabet, x 5 application variants (resend at once / after Finished,
+//! terminated Early dropped / kept, every Early polled 33 s late, reliable + 600 ms busy), plus two failed INVITEs
+//! before the enumerated one; `rejected-then-same-fork` = one of 3 preludes (nothing / 100 / 180 t1) + a t0 response
+//! that cannot create its dialog (180 without Contact / 183 with unparsable Contact / 200 without Contact) + every
+//! continuation of length <= 2 (thorough 3) over the alphabet extended by a Contact-less 180 t0, x 3 application
+//! variants, the application going on after the error; `random` = sampled histories with all dimensions.
 //!
 //! **Oracle.** A reference classifier replays the history in arrival order (the transaction's queue is FIFO) with
 //! the set of tags seen so far and the application's ready time R: response i is classified at d_i = max(arrival_i, R)
@@ -44,15 +62,28 @@
 //! must be delivered however late the application polls. `Finished` is reported once, at max(R_final, D) with
 //! D = 64*T1 after the first 2xx, where "after the first 2xx" is accepted in both readings (its arrival, or the
 //! moment the polling application made the transaction see it).
+//! A 101-299 of a new To-tag without usable Contact cannot create a dialog: if nothing was handed out for it (an
+//! error from `receive` at d_i is accepted, so is silence) NOTHING was created, the To-tag is as unknown as before
+//! and the next response carrying it is classified like any response of a new tag (early dialog / session from the
+//! initiator); the transaction has seen a 2xx among them all the same (64*T1 runs).
+//! Every further INVITE starts the classifier afresh: the failure terminated every early dialog, so no To-tag is
+//! known, whatever the previous INVITEs saw; recipients are told apart by the INVITE they belong to (an early dialog
+//! of INVITE #0 is never the recipient of a response to INVITE #1), Call-ID / local tag of a session are those of the
+//! INVITE it answers. The time base of INVITE #k is the moment it appears in the wire log (when the application
+//! re-sends is the application's business), the reference only predicts THAT it is sent (after a reported failure).
+//! `Finished` of a failed INVITE: once if the application polls it to its end, not at all if it re-sends at once.
 //!
 //! **Not asserted.** What the application sees for a response whose tag already has its session (only: no second
 //! dialog, at most one delivery), and everything after it if the application is busy after that response (R is then
-//! unknown); anything from a dialog-creating response without Contact on; a non-2xx after a 2xx; responses arriving
+//! unknown); whether a dialog-creating response without usable Contact is reported as error or ignored, and anything
+//! from it on if an early dialog / session was handed out for it all the same, if its tag already has a session, or
+//! if the application gives up at the error; a non-2xx after a 2xx (and further INVITEs after it); responses arriving
 //! between 64*T1 - 3 ms after the first 2xx's arrival and the moment `Finished` is certainly reported (incl. those
 //! that arrive after the deadline while the application has not polled yet); the order of the route set (C11);
 //! whether / how long the initiator waits for a not yet polled early dialog (only: nothing is lost, and it goes on
 //! when that `Early` is polled at the latest); an application that drops an `Early` before it yielded a session or
-//! `Terminated`, or polls it with pauses between the events.
+//! `Terminated`, polls it with pauses between the events, or polls it again after `Terminated`; a further INVITE
+//! after one that yielded a session or has not been answered finally; the CSeq / branch of the re-sent INVITE.
 //!
 //! **Found with the lazily polled histories and repaired** (known_findings.txt, fix d9580d2): behind a 3xx-6xx that
 //! follows a 2xx the failure empties `early_list`, a further 18x of a tag that had an early dialog created a second
@@ -124,11 +155,49 @@ pub struct AppCase {
     /// the start)
     #[serde(default)]
     pub early_lag: Vec<u64>,
+    /// the application keeps calling `Initiator::receive` after it returned an error (false = it gives up at the first
+    /// error, nothing is asserted from there on)
+    #[serde(default)]
+    pub go_on_after_error: bool,
+    /// histories of the FURTHER INVITEs the application sends through the same `Initiator`: whenever the INVITE failed
+    /// (a 3xx-6xx was reported and no session came out of it) and a further history is left, the application calls
+    /// `create_invite` + `send_invite` again (as examples/send_invite.rs does after a 401) and the peer answers that
+    /// INVITE with the next history (gaps count from the moment that INVITE is on the wire, or from the last response
+    /// to the previous INVITE if that is later). The fork To-tags are the same family: the UAS may re-use them.
+    #[serde(default)]
+    pub next: Vec<Vec<RespEv>>,
+    /// false: the next INVITE goes out as soon as the application has dealt with the failure response (busy[i] after it);
+    /// true: it first polls the initiator until `Finished`
+    #[serde(default)]
+    pub resend_after_finished: bool,
+    /// the application keeps the `Early` objects that reported `Terminated` (without polling them again) instead of
+    /// dropping them
+    #[serde(default)]
+    pub hold_terminated: bool,
 }
 
 impl AppCase {
     fn lag_of(&self, fork: u8) -> u64 {
         self.early_lag.get(fork as usize).copied().unwrap_or(0)
+    }
+    /// one INVITE, plain tags, UDP, an application that polls everything continuously and gives up at the first error
+    pub fn bare(responses: Vec<RespEv>, rng: u8) -> AppCase {
+        AppCase {
+            responses,
+            rng,
+            tags: 0,
+            busy: vec![],
+            reliable: false,
+            early_lag: vec![],
+            go_on_after_error: false,
+            next: vec![],
+            resend_after_finished: false,
+            hold_terminated: false,
+        }
+    }
+    /// the histories of all INVITEs, in the order they are sent
+    fn histories(&self) -> Vec<&Vec<RespEv>> {
+        std::iter::once(&self.responses).chain(self.next.iter()).collect()
     }
 }
 
@@ -151,43 +220,72 @@ pub fn tag_text(family: u8, idx: u8) -> String {
 
 const CODES: &[u16] = &[100, 180, 183, 199, 200, 202, 300, 404, 486, 603];
 
-/// `chatty` = the responses of a fork that keeps talking: mostly fork 0, mostly 101-199, short gaps
-fn resp_strategy(chatty: bool) -> BoxedStrategy<RespEv> {
-    let gap = if chatty {
-        prop_oneof![Just(1u64), Just(1u64), Just(1u64), Just(20u64), Just(450u64)].boxed()
-    } else {
-        prop_oneof![Just(1u64), Just(1u64), Just(20u64), Just(450u64), Just(700u64), Just(31_000u64)].boxed()
+/// what kind of peer the responses of a history come from
+#[derive(Clone, Copy, PartialEq)]
+enum Flavour {
+    /// everything uniformly
+    General,
+    /// the responses of a fork that keeps talking: mostly fork 0, mostly 101-199, short gaps
+    Chatty,
+    /// a peer that often leaves the Contact out of its responses (or sends one that cannot be parsed): mostly forks 0
+    /// and 1, mostly 101-299, so that responses of the same fork follow a Contact-less one
+    Shaky,
+    /// what precedes the failure of an INVITE that is going to be sent again: mostly 101-199 with a To-tag, short gaps
+    Prelude,
+}
+
+/// a Contact header that cannot be parsed (RespEv.contact = false + this line in `extra`)
+const MALFORMED_CONTACT: &str = "Contact: <sip:";
+
+fn resp_strategy(flavour: Flavour) -> BoxedStrategy<RespEv> {
+    let gap = match flavour {
+        Flavour::Chatty => prop_oneof![Just(1u64), Just(1u64), Just(1u64), Just(20u64), Just(450u64)].boxed(),
+        Flavour::Prelude => prop_oneof![Just(1u64), Just(1u64), Just(20u64), Just(450u64)].boxed(),
+        _ => prop_oneof![Just(1u64), Just(1u64), Just(20u64), Just(450u64), Just(700u64), Just(31_000u64)].boxed(),
     };
+    let sel = |s: BoxedStrategy<u16>| s.prop_map(|i| (i as u32 * 65536 / CODES.len() as u32 + 1) as u16).boxed();
     // selector into CODES: uniform, or weighted towards the provisional ones
-    let csel = if chatty {
-        prop_oneof![
+    let csel = match flavour {
+        Flavour::Chatty => sel(prop_oneof![
             1 => Just(0u16),                                       // 100
             9 => prop_oneof![Just(1u16), Just(2u16), Just(3u16)], // 180 183 199
             2 => prop_oneof![Just(4u16), Just(5u16)],             // 200 202
             1 => prop_oneof![Just(6u16), Just(7u16), Just(8u16), Just(9u16)],
         ]
-        .prop_map(|i| (i as u32 * 65536 / CODES.len() as u32 + 1) as u16)
-        .boxed()
-    } else {
-        any::<u16>().boxed()
+        .boxed()),
+        Flavour::Shaky => sel(prop_oneof![
+            1 => Just(0u16),
+            6 => prop_oneof![Just(1u16), Just(2u16), Just(3u16)],
+            4 => prop_oneof![Just(4u16), Just(5u16)],
+            1 => prop_oneof![Just(6u16), Just(7u16), Just(8u16), Just(9u16)],
+        ]
+        .boxed()),
+        Flavour::Prelude => sel(prop_oneof![1 => Just(0u16), 8 => prop_oneof![Just(1u16), Just(2u16), Just(3u16)]].boxed()),
+        Flavour::General => any::<u16>().boxed(),
     };
-    let tag = if chatty {
-        prop_oneof![1 => Just(None), 8 => Just(Some(0u8)), 2 => Just(Some(1u8)), 1 => Just(Some(2u8))].boxed()
-    } else {
-        prop_oneof![1 => Just(None), 8 => (0u8..3).prop_map(Some)].boxed()
+    let tag = match flavour {
+        Flavour::Chatty => prop_oneof![1 => Just(None), 8 => Just(Some(0u8)), 2 => Just(Some(1u8)), 1 => Just(Some(2u8))].boxed(),
+        Flavour::Shaky => prop_oneof![1 => Just(None), 6 => Just(Some(0u8)), 3 => Just(Some(1u8)), 1 => Just(Some(2u8))].boxed(),
+        Flavour::Prelude => prop_oneof![1 => Just(None), 5 => Just(Some(0u8)), 3 => Just(Some(1u8)), 1 => Just(Some(2u8))].boxed(),
+        Flavour::General => prop_oneof![1 => Just(None), 8 => (0u8..3).prop_map(Some)].boxed(),
+    };
+    // Contact: present / absent / present but unparsable
+    let contact = match flavour {
+        Flavour::Shaky => prop_oneof![11 => Just((true, false)), 7 => Just((false, false)), 2 => Just((false, true))].boxed(),
+        _ => prop_oneof![93 => Just((true, false)), 6 => Just((false, false)), 1 => Just((false, true))].boxed(),
     };
     (
         gap,
         csel,
         tag,
-        prop::bool::weighted(0.93),
+        contact,
         0u8..4,
         any::<bool>(),
         any::<bool>(),
         prop::bool::weighted(0.3),
         prop_oneof![3 => Just(None), 1 => Just(Some(1800u32)), 1 => Just(Some(90u32))],
     )
-        .prop_map(|(gap, csel, tag, contact, record_routes, supported_timer, supported_100rel, rseq, session_expires)| RespEv {
+        .prop_map(|(gap, csel, tag, (contact, malformed), record_routes, supported_timer, supported_100rel, rseq, session_expires)| RespEv {
             gap,
             code: CODES[pick_idx(csel, CODES.len())],
             tag,
@@ -197,6 +295,29 @@ fn resp_strategy(chatty: bool) -> BoxedStrategy<RespEv> {
             supported_100rel,
             rseq,
             session_expires,
+            extra: if malformed { vec![MALFORMED_CONTACT.to_string()] } else { vec![] },
+        })
+        .boxed()
+}
+
+/// the 3xx-6xx that ends an INVITE which is going to be sent again
+fn failure_strategy() -> BoxedStrategy<RespEv> {
+    (
+        prop_oneof![Just(1u64), Just(20u64), Just(450u64), Just(700u64)],
+        prop_oneof![Just(300u16), Just(404u16), Just(486u16), Just(603u16)],
+        prop_oneof![1 => Just(None), 2 => (0u8..3).prop_map(Some)],
+        any::<bool>(),
+    )
+        .prop_map(|(gap, code, tag, contact)| RespEv {
+            gap,
+            code,
+            tag,
+            contact,
+            record_routes: 0,
+            supported_timer: false,
+            supported_100rel: false,
+            rseq: false,
+            session_expires: None,
             extra: vec![],
         })
         .boxed()
@@ -232,80 +353,138 @@ fn lag_strategy() -> BoxedStrategy<u64> {
     .boxed()
 }
 
+fn family_strategy() -> BoxedStrategy<u8> {
+    // tag spelling: plain 4/9, every other family 1/9
+    prop_oneof![4 => Just(0u8), 1 => Just(1u8), 1 => Just(2u8), 1 => Just(3u8), 1 => Just(4u8), 1 => Just(5u8)].boxed()
+}
+
 pub fn strategy() -> BoxedStrategy<AppCase> {
-    let general = (
-        prop::collection::vec((resp_strategy(false), busy_strategy()), 1..11),
-        any::<u8>(),
-        // tag spelling: plain 4/9, every other family 1/9
-        prop_oneof![4 => Just(0u8), 1 => Just(1u8), 1 => Just(2u8), 1 => Just(3u8), 1 => Just(4u8), 1 => Just(5u8)],
-        // half of the cases: the application polls the initiator continuously
-        any::<bool>(),
-        // a third over a reliable transport
-        prop::bool::weighted(0.33),
-        // a third with Early objects the application gets around to late
-        prop_oneof![2 => Just(vec![]), 1 => prop::collection::vec(lag_strategy(), 3)],
-    )
-        .prop_map(|(evs, rng, tags, lazy, reliable, early_lag)| {
-            let (responses, mut busy): (Vec<RespEv>, Vec<u64>) = evs.into_iter().unzip();
-            if !lazy {
-                busy.clear();
-            }
-            AppCase { responses, rng, tags, busy, reliable, early_lag }
-        });
+    let one_invite = |flavour: Flavour, len: std::ops::Range<usize>| {
+        (
+            prop::collection::vec((resp_strategy(flavour), busy_strategy()), len),
+            any::<u8>(),
+            family_strategy(),
+            // half of the cases: the application polls the initiator continuously
+            any::<bool>(),
+            // a third over a reliable transport
+            prop::bool::weighted(0.33),
+            // a third with Early objects the application gets around to late
+            prop_oneof![2 => Just(vec![]), 1 => prop::collection::vec(lag_strategy(), 3)],
+            // most applications go on polling after an error
+            prop::bool::weighted(0.85),
+        )
+            .prop_map(|(evs, rng, tags, lazy, reliable, early_lag, go_on_after_error)| {
+                let (responses, mut busy): (Vec<RespEv>, Vec<u64>) = evs.into_iter().unzip();
+                if !lazy {
+                    busy.clear();
+                }
+                AppCase { tags, busy, reliable, early_lag, go_on_after_error, ..AppCase::bare(responses, rng) }
+            })
+    };
+    let general = one_invite(Flavour::General, 1..11);
+    // a peer that leaves the Contact out of many responses: dialog-creating responses that are rejected, followed by
+    // responses of the same fork
+    let shaky = one_invite(Flavour::Shaky, 2..9);
     // a fork that keeps talking (6..14 responses, mostly 101-199 of fork 0 at short gaps) while the application has
     // not got around to its Early yet: many events pile up for one early dialog
     let chatty = (
-        prop::collection::vec((resp_strategy(true), busy_strategy()), 6..15),
+        prop::collection::vec((resp_strategy(Flavour::Chatty), busy_strategy()), 6..15),
         any::<u8>(),
-        prop_oneof![4 => Just(0u8), 1 => Just(1u8), 1 => Just(2u8), 1 => Just(3u8), 1 => Just(4u8), 1 => Just(5u8)],
+        family_strategy(),
         prop::bool::weighted(0.25),
         prop::bool::weighted(0.33),
         (prop_oneof![Just(613u64), Just(2_537u64), Just(33_017u64), Just(33_017u64), Just(70_003u64)], lag_strategy(), lag_strategy()),
+        prop::bool::weighted(0.85),
     )
-        .prop_map(|(evs, rng, tags, lazy, reliable, (l0, l1, l2))| {
+        .prop_map(|(evs, rng, tags, lazy, reliable, (l0, l1, l2), go_on_after_error)| {
             let (responses, mut busy): (Vec<RespEv>, Vec<u64>) = evs.into_iter().unzip();
             if !lazy {
                 busy.clear();
             }
-            AppCase { responses, rng, tags, busy, reliable, early_lag: vec![l0, l1, l2] }
+            AppCase { tags, busy, reliable, early_lag: vec![l0, l1, l2], go_on_after_error, ..AppCase::bare(responses, rng) }
         });
-    prop_oneof![3 => general, 1 => chatty].boxed()
+    // the INVITE fails once or twice (0..3 responses, mostly 101-199 with a To-tag, then a 3xx-6xx, now and then a
+    // straggler behind it) and is sent again through the same Initiator; the last INVITE gets a general / shaky history
+    let failed_attempt = (
+        prop::collection::vec((resp_strategy(Flavour::Prelude), busy_strategy()), 0..4),
+        (failure_strategy(), busy_strategy()),
+        prop_oneof![9 => Just(None), 1 => (resp_strategy(Flavour::Prelude), busy_strategy()).prop_map(Some)],
+    )
+        .prop_map(|(mut evs, failure, straggler)| {
+            evs.push(failure);
+            evs.extend(straggler);
+            evs
+        });
+    let retry = (
+        prop::collection::vec(failed_attempt, 1..3),
+        prop_oneof![
+            2 => prop::collection::vec((resp_strategy(Flavour::General), busy_strategy()), 1..7),
+            1 => prop::collection::vec((resp_strategy(Flavour::Shaky), busy_strategy()), 1..7),
+        ],
+        (any::<u8>(), family_strategy(), any::<bool>(), prop::bool::weighted(0.33)),
+        prop_oneof![2 => Just(vec![]), 1 => prop::collection::vec(lag_strategy(), 3)],
+        (prop::bool::weighted(0.85), prop::bool::weighted(0.3), prop::bool::weighted(0.4)),
+    )
+        .prop_map(|(failed, last, (rng, tags, lazy, reliable), early_lag, (go_on_after_error, resend_after_finished, hold_terminated))| {
+            let mut busy = vec![];
+            let mut histories: Vec<Vec<RespEv>> = vec![];
+            for h in failed.into_iter().chain(std::iter::once(last)) {
+                let (r, b): (Vec<RespEv>, Vec<u64>) = h.into_iter().unzip();
+                histories.push(r);
+                busy.extend(b);
+            }
+            if !lazy {
+                busy.clear();
+            }
+            let first = histories.remove(0);
+            AppCase { tags, busy, reliable, early_lag, go_on_after_error, next: histories, resend_after_finished, hold_terminated, ..AppCase::bare(first, rng) }
+        });
+    prop_oneof![6 => general, 2 => chatty, 2 => shaky, 5 => retry].boxed()
 }
 
-/// every history of length <= max_len over a reduced alphabet (codes 100,180,200,486; tags none,#0,#1)
-fn histories(max_len: usize) -> Vec<Case> {
-    let codes = [100u16, 180, 200, 486];
-    let tags = [None, Some(0u8), Some(1u8)];
+/// the reduced alphabet: codes 100,180,200,486 x tags none,#0,#1 (a 100 has no tag), every response with Contact
+fn alphabet() -> Vec<(u16, Option<u8>, bool)> {
     let mut alphabet = vec![];
-    for c in codes {
-        for t in tags {
+    for c in [100u16, 180, 200, 486] {
+        for t in [None, Some(0u8), Some(1u8)] {
             if c == 100 && t.is_some() {
                 continue;
             }
-            alphabet.push((c, t));
+            alphabet.push((c, t, true));
         }
     }
+    alphabet
+}
+
+/// a response of the enumerated sub-checks: `i` = its position (decides gap and number of Record-Routes)
+fn plain_ev(i: usize, code: u16, tag: Option<u8>, contact: bool) -> RespEv {
+    RespEv {
+        gap: if i % 2 == 0 { 1 } else { 20 },
+        code,
+        tag,
+        contact,
+        record_routes: (i % 3) as u8,
+        supported_timer: false,
+        supported_100rel: false,
+        rseq: false,
+        session_expires: None,
+        extra: vec![],
+    }
+}
+
+/// every history of length 1..=max_len over the reduced alphabet
+fn histories(max_len: usize) -> Vec<Case> {
+    histories_over(&alphabet(), max_len)
+}
+
+/// every history of length 1..=max_len over `alphabet` = (code, tag, with Contact)
+fn histories_over(alphabet: &[(u16, Option<u8>, bool)], max_len: usize) -> Vec<Case> {
     let mut out = vec![];
     let mut stack: Vec<Vec<usize>> = vec![vec![]];
     while let Some(cur) = stack.pop() {
         if !cur.is_empty() {
             out.push(Case {
-                responses: cur
-                    .iter()
-                    .enumerate()
-                    .map(|(i, a)| RespEv {
-                        gap: if i % 2 == 0 { 1 } else { 20 },
-                        code: alphabet[*a].0,
-                        tag: alphabet[*a].1,
-                        contact: true,
-                        record_routes: (i % 3) as u8,
-                        supported_timer: false,
-                        supported_100rel: false,
-                        rseq: false,
-                        session_expires: None,
-                        extra: vec![],
-                    })
-                    .collect(),
+                responses: cur.iter().enumerate().map(|(i, a)| plain_ev(i, alphabet[*a].0, alphabet[*a].1, alphabet[*a].2)).collect(),
                 rng: cur.len() as u8,
             });
         }
@@ -324,7 +503,7 @@ fn histories(max_len: usize) -> Vec<Case> {
 pub fn exhaustive_cases(tier: Tier) -> Vec<AppCase> {
     histories(tier.pick(4usize, 5usize))
         .into_iter()
-        .map(|c| AppCase { responses: c.responses, rng: c.rng, tags: 0, busy: vec![], reliable: false, early_lag: vec![] })
+        .map(|c| AppCase::bare(c.responses, c.rng))
         .collect()
 }
 
@@ -348,7 +527,7 @@ pub fn variant_cases(tier: Tier) -> Vec<AppCase> {
             (0, vec![600; n], true, vec![613; 3]),
         ];
         for (tags, busy, reliable, early_lag) in variants {
-            out.push(AppCase { responses: c.responses.clone(), rng: c.rng, tags, busy, reliable, early_lag });
+            out.push(AppCase { tags, busy, reliable, early_lag, ..AppCase::bare(c.responses.clone(), c.rng) });
         }
     }
     out
@@ -396,8 +575,104 @@ pub fn lazy_early_cases(tier: Tier) -> Vec<AppCase> {
                         }
                         seq.extend(ending.iter().cloned());
                         let responses = seq.iter().enumerate().map(|(i, (c, t))| ev(gap, *c, *t, i)).collect();
-                        out.push(AppCase { responses, rng: (k * 7 + ei * 3 + li) as u8, tags: 0, busy: vec![], reliable, early_lag: lag.clone() });
+                        out.push(AppCase { reliable, early_lag: lag.clone(), ..AppCase::bare(responses, (k * 7 + ei * 3 + li) as u8) });
                     }
+                }
+            }
+        }
+    }
+    out
+}
+
+/// The INVITE fails and the application sends it again through the same `Initiator`: first INVITE = one of 6 preludes
+/// (nothing / 180 of fork 0 / 180 of fork 1 / 180 of both / 180+183 of fork 0 / 100) + a failure (486 without tag / 404
+/// of fork 0); the second INVITE gets every history of length <= 2 (thorough 3) over the reduced alphabet (the UAS
+/// re-uses its To-tags); x 5 application variants (resend at once / after `Finished`; terminated `Early` dropped /
+/// kept; every `Early` polled 33 s late; reliable transport + 600 ms busy after every response). Plus two failed
+/// INVITEs in a row before it.
+pub fn retry_cases(tier: Tier) -> Vec<AppCase> {
+    let max_len = tier.pick(2usize, 3usize);
+    let preludes: Vec<Vec<(u16, Option<u8>)>> = vec![
+        vec![],
+        vec![(180, Some(0))],
+        vec![(180, Some(1))],
+        vec![(180, Some(0)), (180, Some(1))],
+        vec![(180, Some(0)), (183, Some(0))],
+        vec![(100, None)],
+    ];
+    let failures: [(u16, Option<u8>); 2] = [(486, None), (404, Some(0))];
+    let build = |seq: &[(u16, Option<u8>)]| seq.iter().enumerate().map(|(i, (c, t))| plain_ev(i, *c, *t, true)).collect::<Vec<RespEv>>();
+    let mut out = vec![];
+    for last in histories(max_len) {
+        for (pi, prelude) in preludes.iter().enumerate() {
+            for (fi, failure) in failures.iter().enumerate() {
+                let mut first = prelude.clone();
+                first.push(*failure);
+                let n = first.len() + last.responses.len();
+                // (resend after Finished, hold terminated, reliable, early_lag, busy)
+                let variants: Vec<(bool, bool, bool, Vec<u64>, Vec<u64>)> = vec![
+                    (false, false, false, vec![], vec![]),
+                    (false, true, false, vec![], vec![]),
+                    (true, false, false, vec![], vec![]),
+                    (false, false, false, vec![33_017; 3], vec![]),
+                    (false, true, true, vec![], vec![600; n]),
+                ];
+                for (resend_after_finished, hold_terminated, reliable, early_lag, busy) in variants {
+                    out.push(AppCase {
+                        busy,
+                        reliable,
+                        early_lag,
+                        go_on_after_error: true,
+                        next: vec![last.responses.clone()],
+                        resend_after_finished,
+                        hold_terminated,
+                        ..AppCase::bare(build(&first), (pi * 5 + fi * 3 + last.responses.len()) as u8)
+                    });
+                }
+            }
+        }
+        // three INVITEs: the first two fail
+        for hold_terminated in [false, true] {
+            out.push(AppCase {
+                go_on_after_error: true,
+                next: vec![build(&[(180, Some(0)), (183, Some(0)), (404, Some(0))]), last.responses.clone()],
+                resend_after_finished: hold_terminated,
+                hold_terminated,
+                ..AppCase::bare(build(&[(180, Some(0)), (486, None)]), last.responses.len() as u8 + 40)
+            });
+        }
+    }
+    out
+}
+
+/// A dialog-creating response of a new fork that cannot create the dialog (no Contact / unparsable Contact), then the
+/// same fork goes on: one of 3 preludes (nothing / 100 / 180 of fork 1) + one of 3 such responses of fork 0 (180
+/// without Contact, 183 with an unparsable Contact, 200 without Contact) + every continuation of length <= 2
+/// (thorough 3) over the reduced alphabet extended by a Contact-less 180 of fork 0; x 3 application variants
+/// (continuous / reliable + 600 ms busy / every Early polled 613 ms late). The application goes on after the error.
+pub fn rejected_cases(tier: Tier) -> Vec<AppCase> {
+    let max_len = tier.pick(2usize, 3usize);
+    let mut alpha = alphabet();
+    alpha.push((180, Some(0), false));
+    let preludes: Vec<Vec<(u16, Option<u8>)>> = vec![vec![], vec![(100, None)], vec![(180, Some(1))]];
+    // (code, malformed Contact instead of none)
+    let rejected: [(u16, bool); 3] = [(180, false), (183, true), (200, false)];
+    let mut out = vec![];
+    for cont in histories_over(&alpha, max_len) {
+        for (pi, prelude) in preludes.iter().enumerate() {
+            for (ri, (code, malformed)) in rejected.iter().enumerate() {
+                let mut responses: Vec<RespEv> = prelude.iter().enumerate().map(|(i, (c, t))| plain_ev(i, *c, *t, true)).collect();
+                let mut rej = plain_ev(responses.len(), *code, Some(0), false);
+                if *malformed {
+                    rej.extra.push(MALFORMED_CONTACT.to_string());
+                }
+                responses.push(rej);
+                let k = responses.len();
+                responses.extend(cont.responses.iter().enumerate().map(|(i, r)| RespEv { ..plain_ev(k + i, r.code, r.tag, r.contact) }));
+                let n = responses.len();
+                let variants: Vec<(bool, Vec<u64>, Vec<u64>)> = vec![(false, vec![], vec![]), (true, vec![600; n], vec![]), (false, vec![], vec![613; 3])];
+                for (reliable, busy, early_lag) in variants {
+                    out.push(AppCase { busy, reliable, early_lag, go_on_after_error: true, ..AppCase::bare(responses.clone(), (pi * 3 + ri + n) as u8) });
                 }
             }
         }
@@ -443,6 +718,9 @@ pub struct Event {
     pub kind: Kind,
     pub marker: Option<String>,
     pub dialog: Option<DialogSummary>,
+    /// which INVITE of the initiator (0 = the first): for the initiator the one it is polled for, for an early dialog
+    /// the one it was created by
+    pub attempt: usize,
 }
 
 fn marker_of(r: &sip_core::transaction::TsxResponse) -> Option<String> {
@@ -454,7 +732,20 @@ fn marker_of(r: &sip_core::transaction::TsxResponse) -> Option<String> {
 
 type Log = Arc<Mutex<Vec<Event>>>;
 
-async fn early_task(clock: Clock, tag: String, lag: u64, mut early: Early, log: Log, sessions: Arc<Mutex<Vec<Session>>>) {
+/// what the application's tasks share
+#[derive(Clone)]
+struct App {
+    clock: Clock,
+    log: Log,
+    sessions: Arc<Mutex<Vec<Session>>>,
+    /// `Early` objects that reported `Terminated` and are kept (never polled again)
+    held: Option<Arc<Mutex<Vec<Early>>>>,
+    /// a session came out of the current INVITE
+    got_session: Arc<std::sync::atomic::AtomicBool>,
+}
+
+async fn early_task(app: App, attempt: usize, tag: String, lag: u64, mut early: Early) {
+    let App { clock, log, sessions, held, got_session } = app;
     // the application gets around to this early dialog only after `lag` ms, from then on it polls it continuously
     if lag > 0 {
         clock.advance(lag).await;
@@ -467,6 +758,7 @@ async fn early_task(clock: Clock, tag: String, lag: u64, mut early: Early, log: 
                 kind: Kind::Provisional,
                 marker: marker_of(&r),
                 dialog: None,
+                attempt,
             }),
             Ok(EarlyResponse::Success(session, r)) => {
                 log.lock().push(Event {
@@ -475,7 +767,9 @@ async fn early_task(clock: Clock, tag: String, lag: u64, mut early: Early, log: 
                     kind: Kind::Session,
                     marker: marker_of(&r),
                     dialog: Some(summarize(&session.dialog)),
+                    attempt,
                 });
+                got_session.store(true, std::sync::atomic::Ordering::SeqCst);
                 sessions.lock().push(session);
                 // the early dialog has become a session: the application lets go of it
                 return;
@@ -487,7 +781,12 @@ async fn early_task(clock: Clock, tag: String, lag: u64, mut early: Early, log: 
                     kind: Kind::Terminated,
                     marker: None,
                     dialog: None,
+                    attempt,
                 });
+                // a terminated Early must not be polled again; the application drops it or keeps the object around
+                if let Some(held) = held {
+                    held.lock().push(early);
+                }
                 return;
             }
             Err(e) => {
@@ -497,6 +796,7 @@ async fn early_task(clock: Clock, tag: String, lag: u64, mut early: Early, log: 
                     kind: Kind::Error(e.to_string()),
                     marker: None,
                     dialog: None,
+                    attempt,
                 });
                 return;
             }
@@ -506,7 +806,10 @@ async fn early_task(clock: Clock, tag: String, lag: u64, mut early: Early, log: 
 
 pub struct Observed {
     pub events: Vec<Event>,
+    /// the first INVITE
     pub invite: Option<WireMsg>,
+    /// every INVITE the initiator sent (retransmissions not counted): moment it went on the wire, message
+    pub invites: Vec<(u64, WireMsg)>,
 }
 
 fn contact_of(i: usize) -> String {
@@ -516,9 +819,56 @@ fn routes_of(i: usize, n: u8) -> Vec<String> {
     (0..n).map(|k| format!("p{i}x{k}.example.com")).collect()
 }
 
+/// the INVITE transactions on the wire: first transmission of every distinct Via branch
+fn invites_on(log: &WireLog) -> Vec<(u64, WireMsg)> {
+    let mut seen: BTreeSet<String> = BTreeSet::new();
+    let mut out = vec![];
+    for (s, m) in log.parsed() {
+        let Some(m) = m else { continue };
+        if m.is_request() && m.method() == Some("INVITE") && seen.insert(m.via_branch().unwrap_or_default()) {
+            out.push((s.t_ms, m));
+        }
+    }
+    out
+}
+
+/// the peer's response number `i` (over all INVITEs of the case) to the INVITE `inv`
+fn response_bytes(inv: &WireMsg, i: usize, r: &RespEv, family: u8) -> Vec<u8> {
+    let mut extra = vec![format!("X-Seq: m{i}")];
+    if r.contact {
+        extra.push(format!("Contact: <{}>", contact_of(i)));
+    }
+    for h in routes_of(i, r.record_routes) {
+        extra.push(format!("Record-Route: <sip:{h};lr>"));
+    }
+    let mut sup = vec![];
+    if r.supported_timer {
+        sup.push("timer");
+    }
+    if r.supported_100rel {
+        sup.push("100rel");
+    }
+    if !sup.is_empty() {
+        extra.push(format!("Supported: {}", sup.join(", ")));
+    }
+    if r.rseq && (101..200).contains(&r.code) {
+        extra.push("Require: 100rel".into());
+        extra.push(format!("RSeq: {}", 100 + i));
+    }
+    if let Some(se) = r.session_expires {
+        if (200..300).contains(&r.code) {
+            extra.push("Require: timer".into());
+            extra.push(format!("Session-Expires: {se};refresher=uas"));
+        }
+    }
+    extra.extend(r.extra.iter().cloned());
+    let tag = r.tag.map(|t| tag_text(family, t));
+    response_text(inv, r.code, tag.as_deref(), &extra)
+}
+
 /// the bare history: plain tags, an application that polls continuously (C02 uses this)
 pub fn run(case: &Case) -> Observed {
-    run_app(&AppCase { responses: case.responses.clone(), rng: case.rng, tags: 0, busy: vec![], reliable: false, early_lag: vec![] })
+    run_app(&AppCase::bare(case.responses.clone(), case.rng))
 }
 
 pub fn run_app(case: &AppCase) -> Observed {
@@ -550,51 +900,82 @@ pub fn run_app(case: &AppCase) -> Observed {
         );
         let events: Log = Default::default();
         let sessions: Arc<Mutex<Vec<Session>>> = Default::default();
+        let held: Arc<Mutex<Vec<Early>>> = Default::default();
         let invite = initiator.create_invite();
         if let Err(e) = initiator.send_invite(invite).await {
-            events.lock().push(Event { t_ms: 0, recipient: None, kind: Kind::Error(format!("send: {e}")), marker: None, dialog: None });
-            return Observed { events: events.lock().clone(), invite: None };
+            events.lock().push(Event { t_ms: 0, recipient: None, kind: Kind::Error(format!("send: {e}")), marker: None, dialog: None, attempt: 0 });
+            return Observed { events: events.lock().clone(), invite: None, invites: vec![] };
         }
         settle().await;
         let invite_msg = log.snapshot().first().and_then(|s| WireMsg::parse(&s.bytes));
 
+        let histories: Vec<Vec<RespEv>> = case.histories().into_iter().cloned().collect();
+        let n_total: usize = histories.iter().map(|h| h.len()).sum();
+        // the application tells the peer's script that the next INVITE is out
+        let (resent_tx, mut resent_rx) = tokio::sync::mpsc::unbounded_channel::<()>();
+
         {
+            let app = App {
+                clock,
+                log: events.clone(),
+                sessions: sessions.clone(),
+                held: case.hold_terminated.then(|| held.clone()),
+                got_session: Default::default(),
+            };
             let events = events.clone();
             let sessions = sessions.clone();
             let busy = case.busy.clone();
             let lags: Vec<(String, u64)> = (0..3u8).map(|j| (tag_text(case.tags, j), case.lag_of(j))).collect();
+            let further = case.next.len();
+            let go_on_after_error = case.go_on_after_error;
+            let resend_after_finished = case.resend_after_finished;
             tokio::spawn(async move {
+                use std::sync::atomic::Ordering::SeqCst;
+                let mut attempt = 0usize;
+                // a 3xx-6xx was reported for the current INVITE
+                let mut failed = false;
+                let mut errors = 0usize;
                 loop {
                     let r = initiator.receive().await;
                     let t_ms = clock.now_ms();
                     let handed: Option<String>;
+                    let mut finished = false;
                     match r {
                         Ok(Response::Provisional(r)) => {
                             handed = marker_of(&r);
-                            events.lock().push(Event { t_ms, recipient: None, kind: Kind::Provisional, marker: marker_of(&r), dialog: None })
+                            events.lock().push(Event { t_ms, recipient: None, kind: Kind::Provisional, marker: marker_of(&r), dialog: None, attempt })
                         }
                         Ok(Response::Failure(r)) => {
                             handed = marker_of(&r);
-                            events.lock().push(Event { t_ms, recipient: None, kind: Kind::Failure, marker: marker_of(&r), dialog: None })
+                            failed = true;
+                            events.lock().push(Event { t_ms, recipient: None, kind: Kind::Failure, marker: marker_of(&r), dialog: None, attempt })
                         }
                         Ok(Response::Early(early, r, _)) => {
                             handed = marker_of(&r);
                             let tag = r.base_headers.to.tag.as_ref().map(|t| t.to_string()).unwrap_or_default();
-                            events.lock().push(Event { t_ms, recipient: None, kind: Kind::EarlyCreated, marker: marker_of(&r), dialog: None });
+                            events.lock().push(Event { t_ms, recipient: None, kind: Kind::EarlyCreated, marker: marker_of(&r), dialog: None, attempt });
                             let lag = lags.iter().find(|(t, _)| *t == tag).map_or(0, |(_, l)| *l);
-                            tokio::spawn(early_task(clock, tag, lag, early, events.clone(), sessions.clone()));
+                            tokio::spawn(early_task(app.clone(), attempt, tag, lag, early));
                         }
                         Ok(Response::Session(session, r)) => {
                             handed = marker_of(&r);
-                            events.lock().push(Event { t_ms, recipient: None, kind: Kind::Session, marker: marker_of(&r), dialog: Some(summarize(&session.dialog)) });
+                            events.lock().push(Event { t_ms, recipient: None, kind: Kind::Session, marker: marker_of(&r), dialog: Some(summarize(&session.dialog)), attempt });
+                            app.got_session.store(true, SeqCst);
                             sessions.lock().push(session);
                         }
                         Ok(Response::Finished) => {
-                            events.lock().push(Event { t_ms, recipient: None, kind: Kind::Finished, marker: None, dialog: None });
-                            break;
+                            handed = None;
+                            finished = true;
+                            events.lock().push(Event { t_ms, recipient: None, kind: Kind::Finished, marker: None, dialog: None, attempt });
                         }
                         Err(e) => {
-                            events.lock().push(Event { t_ms, recipient: None, kind: Kind::Error(e.to_string()), marker: None, dialog: None });
+                            events.lock().push(Event { t_ms, recipient: None, kind: Kind::Error(e.to_string()), marker: None, dialog: None, attempt });
+                            errors += 1;
+                            // an application that goes on polls again at once (bounded: an initiator that keeps failing
+                            // ends the application)
+                            if go_on_after_error && errors <= n_total + 2 {
+                                continue;
+                            }
                             break;
                         }
                     }
@@ -606,6 +987,21 @@ pub fn run_app(case: &AppCase) -> Observed {
                     if b > 0 {
                         clock.advance(b).await;
                     }
+                    // the INVITE failed without yielding a session: the application sends it again through the same
+                    // initiator, at once or after it has seen `Finished`
+                    let resend = failed && attempt < further && !app.got_session.load(SeqCst) && (finished || !resend_after_finished);
+                    if resend {
+                        let invite = initiator.create_invite();
+                        if let Err(e) = initiator.send_invite(invite).await {
+                            events.lock().push(Event { t_ms: clock.now_ms(), recipient: None, kind: Kind::Error(format!("send: {e}")), marker: None, dialog: None, attempt });
+                            break;
+                        }
+                        attempt += 1;
+                        failed = false;
+                        let _ = resent_tx.send(());
+                    } else if finished {
+                        break;
+                    }
                 }
                 // keep the initiator alive until the world ends (early dialogs reference its channels)
                 std::future::pending::<()>().await;
@@ -613,62 +1009,50 @@ pub fn run_app(case: &AppCase) -> Observed {
             });
         }
 
+        // every busy period / late Early delays the application by at most its own length
+        let slack = case.busy.iter().sum::<u64>() + case.early_lag.iter().sum::<u64>() * histories.len() as u64 + TIMEOUT + 5000;
         let mut t = 0;
-        if let Some(inv) = &invite_msg {
-            for (i, r) in case.responses.iter().enumerate() {
+        let mut g = 0usize;
+        for (k, hist) in histories.iter().enumerate() {
+            if k > 0 {
+                // the peer answers the next INVITE once it is out (never, if the application does not send one)
+                match tokio::time::timeout(std::time::Duration::from_millis(slack), resent_rx.recv()).await {
+                    Ok(Some(())) => {}
+                    _ => break,
+                }
+                settle().await;
+                t = clock.now_ms();
+            }
+            let Some((_, inv)) = invites_on(&log).into_iter().nth(k) else { break };
+            for (j, r) in hist.iter().enumerate() {
                 t += r.gap;
                 clock.until(t).await;
-                let mut extra = vec![format!("X-Seq: m{i}")];
-                if r.contact {
-                    extra.push(format!("Contact: <{}>", contact_of(i)));
-                }
-                for h in routes_of(i, r.record_routes) {
-                    extra.push(format!("Record-Route: <sip:{h};lr>"));
-                }
-                let mut sup = vec![];
-                if r.supported_timer {
-                    sup.push("timer");
-                }
-                if r.supported_100rel {
-                    sup.push("100rel");
-                }
-                if !sup.is_empty() {
-                    extra.push(format!("Supported: {}", sup.join(", ")));
-                }
-                if r.rseq && (101..200).contains(&r.code) {
-                    extra.push("Require: 100rel".into());
-                    extra.push(format!("RSeq: {}", 100 + i));
-                }
-                if let Some(se) = r.session_expires {
-                    if (200..300).contains(&r.code) {
-                        extra.push("Require: timer".into());
-                        extra.push(format!("Session-Expires: {se};refresher=uas"));
-                    }
-                }
-                extra.extend(r.extra.iter().cloned());
-                let tag = r.tag.map(|t| tag_text(case.tags, t));
-                let bytes = response_text(inv, r.code, tag.as_deref(), &extra);
+                let bytes = response_bytes(&inv, g + j, r, case.tags);
                 inject(&endpoint, &tp, peer, &bytes);
                 settle().await;
             }
+            g += hist.len();
         }
-        // every busy period / late Early delays the application by at most its own length
-        clock.until(t + case.busy.iter().sum::<u64>() + case.early_lag.iter().sum::<u64>() + TIMEOUT + 5000).await;
+        clock.until(t + slack).await;
         settle().await;
         let evs = events.lock().clone();
+        let invites = invites_on(&log);
         sessions.lock().clear();
-        Observed { events: evs, invite: invite_msg }
+        held.lock().clear();
+        Observed { events: evs, invite: invite_msg, invites }
     })
 }
 
 pub fn check(case: &AppCase, out: &mut CaseOut) {
     let obs = run_app(case);
-    let Some(invite) = obs.invite.clone() else {
+    if obs.invite.is_none() || obs.invites.is_empty() {
         out.fail("c13.harness/no-invite", format!("INVITE not sent: {:?}", obs.events));
         return;
-    };
-    let call_id = invite.call_id().unwrap_or("").to_string();
-    let local_tag = invite.from_tag().unwrap_or_default();
+    }
+    // every response of the case in the order the peer sends them, with the INVITE (0 = first) it answers; the
+    // position in this list is the number in the response's X-Seq marker and its index into `busy`
+    let histories = case.histories();
+    let all: Vec<(usize, &RespEv)> = histories.iter().enumerate().flat_map(|(k, h)| h.iter().map(move |r| (k, r))).collect();
     let tag_of = |r: &RespEv| r.tag.map(|x| tag_text(case.tags, x));
     let busy_of = |i: usize| case.busy.get(i).copied().unwrap_or(0);
 
@@ -686,39 +1070,50 @@ pub fn check(case: &AppCase, out: &mut CaseOut) {
         kinds: Vec<Kind>, // admissible kinds
         optional: bool,
         idx: usize,
+        /// the INVITE it answers (the recipient is the initiator polled for that INVITE / an early dialog created by it)
+        attempt: usize,
         /// it waited in the transaction's queue while the application was busy
         queued: bool,
         /// it arrived inside the Accepted window but is polled only after the earliest reading of the 64*T1 deadline
         polled_after_deadline: bool,
         /// it was forwarded to an early dialog the application had not started to poll yet
         to_unpolled_early: bool,
+        /// an earlier response of this INVITE with the same To-tag could not create its dialog (no usable Contact)
+        after_rejected: bool,
+        /// its To-tag had an early dialog in an earlier, failed INVITE of this initiator
+        reused_tag: bool,
+    }
+    /// how the reference saw an INVITE end
+    struct AttemptEnd {
+        /// first 2xx seen by the transaction: (arrival, latest moment the polling application made the transaction see it)
+        accepted: Option<(u64, u64)>,
+        /// transaction over (non-2xx final): index, time it was handed over
+        ended: Option<(usize, u64)>,
+        /// from when on the application is back inside Initiator::receive after the last response
+        ready: (u64, u64),
+        /// indices [first, first + len) are the responses to this INVITE
+        first: usize,
+        len: usize,
     }
     let mut want: Vec<Want> = vec![];
-    let mut early: BTreeSet<String> = BTreeSet::new(); // live early dialogs by tag
-    let mut early_order: Vec<String> = vec![]; // ... in creation order
-    // early dialogs the application gets around to late: tag -> the moment it starts polling the Early
-    let mut poll_start: std::collections::BTreeMap<String, (u64, u64)> = Default::default();
-    // events forwarded before the application started polling that Early if the initiator never had to wait (for the class labels only)
-    let mut piled: std::collections::BTreeMap<String, usize> = Default::default();
-    let mut upgraded: BTreeSet<String> = BTreeSet::new(); // tags whose early dialog became a session (early dropped)
-    let mut direct_sessions: BTreeSet<String> = BTreeSet::new();
-    // first 2xx seen by the transaction: (arrival, latest moment the polling application made the transaction see it)
-    let mut accepted: Option<(u64, u64)> = None;
-    let mut ended: Option<(usize, u64)> = None; // transaction over (non-2xx final): index, time it was handed over
-    let mut gone = false; // Finished was certainly reported before this arrival
-    let mut expect_terminated: Vec<(String, (u64, u64))> = vec![];
+    let mut attempts_done: Vec<AttemptEnd> = vec![];
+    // (INVITE, tag of the early dialog, when it gets Terminated)
+    let mut expect_terminated: Vec<(usize, String, (u64, u64))> = vec![];
     let mut stop_at: Option<usize> = None; // classification result is not asserted from this index on
     let mut cut_t: Option<u64> = None; // ... i.e. from this moment on
-    let mut t = 0u64;
-    // R: the moment from which the application is (again) inside Initiator::receive and the initiator is not waiting
-    // for an early dialog
-    let mut ready = (0u64, 0u64);
+    // tags that had an early dialog in an earlier (failed) INVITE
+    let mut prev_early_tags: BTreeSet<String> = BTreeSet::new();
+    // dialog-creating responses that cannot create the dialog: when `Initiator::receive` may report the error
+    let mut rejected_at: Vec<(u64, u64)> = vec![];
     let mut dup_seen = false;
     let mut dup_markers: Vec<(String, &'static str)> = vec![];
     let mut busy_used = false;
     let mut late_early_used = false;
     let mut failure_with_unpolled_early = false;
     let mut after_first_2xx_asserted = false;
+    let mut any_upgraded = false;
+    let mut piled_max = 0usize;
+    let mut resent_while_early_unpolled = false;
     // forwarding an event at moment `at` into the queue of the early dialog `tag`: -> (moment the initiator goes on,
     // moment the application gets the event out of the Early, was the Early not polled yet)
     let forward = |poll_start: &std::collections::BTreeMap<String, (u64, u64)>, tag: &str, at: (u64, u64)| -> ((u64, u64), (u64, u64), bool) {
@@ -727,149 +1122,217 @@ pub fn check(case: &AppCase, out: &mut CaseOut) {
             _ => (at, at, false),
         }
     };
-    for (i, r) in case.responses.iter().enumerate() {
-        t += r.gap;
-        let marker = format!("m{i}");
-        if ended.is_some() || gone {
-            continue; // orphan: the transaction has ended
+    let mut g = 0usize; // index of the first response to the current INVITE
+    let mut prev_last_t = 0u64; // when the peer sent its last response to the previous INVITE
+    for (k, hist) in histories.iter().enumerate() {
+        // The peer answers INVITE k from the moment it is on the wire (observed in the wire log: WHEN the application
+        // sends it is the application's business) or from its last response to the previous INVITE, if that is later
+        let Some((t_sent, _)) = obs.invites.get(k) else { break };
+        let mut t = (*t_sent).max(prev_last_t);
+        // R: the moment from which the application is (again) inside Initiator::receive and the initiator is not waiting
+        // for an early dialog
+        let mut ready = (*t_sent, *t_sent);
+        // a new INVITE: no To-tag is known, no early dialog exists (the failure terminated all of the previous INVITE)
+        let mut early: BTreeSet<String> = BTreeSet::new(); // live early dialogs by tag
+        let mut early_order: Vec<String> = vec![]; // ... in creation order
+        // early dialogs the application gets around to late: tag -> the moment it starts polling the Early
+        let mut poll_start: std::collections::BTreeMap<String, (u64, u64)> = Default::default();
+        // events forwarded before the application started polling that Early if the initiator never had to wait (for the class labels only)
+        let mut piled: std::collections::BTreeMap<String, usize> = Default::default();
+        let mut upgraded: BTreeSet<String> = BTreeSet::new(); // tags whose early dialog became a session (early dropped)
+        let mut direct_sessions: BTreeSet<String> = BTreeSet::new();
+        let mut rejected_tags: BTreeSet<String> = BTreeSet::new(); // tags of responses that could not create their dialog
+        let mut accepted: Option<(u64, u64)> = None;
+        let mut ended: Option<(usize, u64)> = None;
+        let mut gone = false; // Finished was certainly reported before this arrival
+        if k > 0 {
+            // (class label) Early objects of the previous INVITE the application has not even started to poll
+            resent_while_early_unpolled |= expect_terminated.iter().any(|(a, _, at)| *a + 1 == k && at.1 > *t_sent);
         }
-        if let Some((fa, fd)) = accepted {
-            if t + 3 >= fa + TIMEOUT {
-                // at / after the end of the Accepted state (in its earliest reading)
-                if ready.1.max(fd + TIMEOUT) + 3 < t {
-                    // the application was inside receive() when the deadline (latest reading) passed: Finished is out
-                    gone = true;
-                    continue;
-                }
-                // around the deadline, or after it while the application has not polled yet: not asserted
-                stop_at = Some(i);
-                cut_t = Some(t.max(ready.0));
-                break;
+        'hist: for (j, r) in hist.iter().enumerate() {
+            let i = g + j;
+            t += r.gap;
+            let marker = format!("m{i}");
+            if ended.is_some() || gone {
+                continue; // orphan: the transaction has ended
             }
-        }
-        // FIFO: classified on arrival if the application is waiting in receive(), else at its next poll
-        let d = (t.max(ready.0), t.max(ready.1));
-        ready = d;
-        let queued = d.1 > t;
-        let polled_after_deadline = accepted.map_or(false, |(fa, _)| d.0 >= fa + TIMEOUT);
-        let mk = |at: (u64, u64), recipient: Option<String>, kinds: Vec<Kind>, optional: bool, to_unpolled_early: bool| Want { marker: marker.clone(), t: at, recipient, kinds, optional, idx: i, queued, polled_after_deadline, to_unpolled_early };
-        let tag = tag_of(r);
-        let needs_dialog = (101..300).contains(&r.code) && tag.is_some();
-        // handed = Initiator::receive returns this response to the application, which is then busy for busy[i]
-        let mut handed = false;
-        if r.code <= 100 {
-            want.push(mk(d, None, vec![Kind::Provisional], false, false));
-            handed = true;
-            after_first_2xx_asserted |= accepted.is_some();
-        } else if r.code >= 300 {
-            if accepted.is_none() {
-                // every early dialog is told, in creation order; the initiator may have to wait for each not yet polled one
-                let mut at = d;
-                for e in &early_order {
-                    if !early.contains(e) {
+            if let Some((fa, fd)) = accepted {
+                if t + 3 >= fa + TIMEOUT {
+                    // at / after the end of the Accepted state (in its earliest reading)
+                    if ready.1.max(fd + TIMEOUT) + 3 < t {
+                        // the application was inside receive() when the deadline (latest reading) passed: Finished is out
+                        gone = true;
                         continue;
                     }
-                    let (go_on, got, unpolled) = forward(&poll_start, e, at);
-                    at = go_on;
-                    failure_with_unpolled_early |= unpolled;
-                    expect_terminated.push((e.clone(), got));
+                    // around the deadline, or after it while the application has not polled yet: not asserted
+                    stop_at = Some(i);
+                    cut_t = Some(t.max(ready.0));
+                    break 'hist;
                 }
-                early.clear();
-                want.push(mk(at, None, vec![Kind::Failure], false, false));
-                ready = at;
-                ended = Some((i, at.1));
+            }
+            // FIFO: classified on arrival if the application is waiting in receive(), else at its next poll
+            let d = (t.max(ready.0), t.max(ready.1));
+            ready = d;
+            let queued = d.1 > t;
+            let polled_after_deadline = accepted.map_or(false, |(fa, _)| d.0 >= fa + TIMEOUT);
+            let tag = tag_of(r);
+            let after_rejected = tag.as_ref().map_or(false, |x| rejected_tags.contains(x));
+            let reused_tag = tag.as_ref().map_or(false, |x| prev_early_tags.contains(x));
+            let mk = |at: (u64, u64), recipient: Option<String>, kinds: Vec<Kind>, optional: bool, to_unpolled_early: bool| Want {
+                marker: marker.clone(),
+                t: at,
+                recipient,
+                kinds,
+                optional,
+                idx: i,
+                attempt: k,
+                queued,
+                polled_after_deadline,
+                to_unpolled_early,
+                after_rejected,
+                reused_tag,
+            };
+            let needs_dialog = (101..300).contains(&r.code) && tag.is_some();
+            // handed = Initiator::receive returns this response to the application, which is then busy for busy[i]
+            let mut handed = false;
+            if r.code <= 100 {
+                want.push(mk(d, None, vec![Kind::Provisional], false, false));
                 handed = true;
-            } else {
-                // a non-2xx after a 2xx: what the initiator does with it is not asserted
-                want.push(mk(d, None, vec![Kind::Failure], true, false));
-                stop_at = Some(i + 1);
-                cut_t = Some(d.0);
-                break;
-            }
-        } else if tag.is_none() {
-            // 1xx/2xx without To-tag: cannot create a dialog, ignored (the transaction still sees the 2xx)
-            if (200..300).contains(&r.code) && accepted.is_none() {
-                accepted = Some((t, d.1));
-            }
-        } else if needs_dialog && !r.contact && !early.contains(tag.as_ref().unwrap()) {
-            // a dialog-creating response without Contact is malformed: error or ignore, nothing asserted after
-            stop_at = Some(i);
-            cut_t = Some(d.0);
-            break;
-        } else {
-            let tag = tag.unwrap();
-            let was_accepted = accepted.is_some();
-            if (200..300).contains(&r.code) && accepted.is_none() {
-                accepted = Some((t, d.1));
-            }
-            if early.contains(&tag) {
-                // forwarded inside receive(): the application is not handed anything
-                let (go_on, got, unpolled) = forward(&poll_start, &tag, d);
-                ready = go_on;
-                if unpolled && d.0 < poll_start[&tag].0 {
-                    *piled.entry(tag.clone()).or_default() += 1;
-                }
-                after_first_2xx_asserted |= was_accepted;
-                if r.code < 200 {
-                    want.push(mk(got, Some(tag.clone()), vec![Kind::Provisional], false, unpolled));
+                after_first_2xx_asserted |= accepted.is_some();
+            } else if r.code >= 300 {
+                if accepted.is_none() {
+                    // every early dialog is told, in creation order; the initiator may have to wait for each not yet polled one
+                    let mut at = d;
+                    for e in &early_order {
+                        if !early.contains(e) {
+                            continue;
+                        }
+                        let (go_on, got, unpolled) = forward(&poll_start, e, at);
+                        at = go_on;
+                        failure_with_unpolled_early |= unpolled;
+                        expect_terminated.push((k, e.clone(), got));
+                    }
+                    early.clear();
+                    want.push(mk(at, None, vec![Kind::Failure], false, false));
+                    ready = at;
+                    ended = Some((i, at.1));
+                    handed = true;
                 } else {
-                    want.push(mk(got, Some(tag.clone()), vec![Kind::Session], false, unpolled));
-                    early.remove(&tag);
-                    upgraded.insert(tag);
+                    // a non-2xx after a 2xx: what the initiator does with it is not asserted
+                    want.push(mk(d, None, vec![Kind::Failure], true, false));
+                    stop_at = Some(i + 1);
+                    cut_t = Some(d.0);
+                    break 'hist;
                 }
-            } else if upgraded.contains(&tag) || direct_sessions.contains(&tag) {
-                // a response for a tag that already has its session (retransmitted 2xx, late 18x):
-                // what the application sees is not asserted, only that nothing breaks
-                dup_seen = true;
-                dup_markers.push((marker.clone(), if upgraded.contains(&tag) { "after-early-upgrade" } else { "direct" }));
-                // It may go into the queue of an Early the application has not started to poll: the one whose session
-                // it has not taken out yet, or one that an earlier such 18x got created for this tag (created or not
-                // is not asserted; if it was, the application gets around to it as late as to any Early of that fork)
-                let mut at = d;
-                if poll_start.contains_key(&tag) {
-                    let (go_on, got, _) = forward(&poll_start, &tag, d);
+            } else if tag.is_none() {
+                // 1xx/2xx without To-tag: cannot create a dialog, ignored (the transaction still sees the 2xx)
+                if (200..300).contains(&r.code) && accepted.is_none() {
+                    accepted = Some((t, d.1));
+                }
+            } else if needs_dialog && !r.contact && !early.contains(tag.as_ref().unwrap()) {
+                // A dialog-creating response without usable Contact is malformed: the dialog cannot be created. The
+                // statement is silent about it; the reading in which the initiator reports an error (or ignores the
+                // response) and creates NOTHING is followed as long as the application goes on polling: the To-tag
+                // is then as unknown as before. Any other outcome (an early dialog / session was handed out all the
+                // same, the tag already has its session, the application gives up): nothing is asserted from here on.
+                let tag = tag.unwrap();
+                let created_anyway = obs.events.iter().any(|e| e.marker.as_deref() == Some(marker.as_str()) && matches!(e.kind, Kind::EarlyCreated | Kind::Session));
+                if !case.go_on_after_error || created_anyway || upgraded.contains(&tag) || direct_sessions.contains(&tag) {
+                    stop_at = Some(i);
+                    cut_t = Some(d.0);
+                    break 'hist;
+                }
+                if (200..300).contains(&r.code) && accepted.is_none() {
+                    accepted = Some((t, d.1)); // the transaction has seen it
+                }
+                rejected_at.push(d);
+                rejected_tags.insert(tag);
+            } else {
+                let tag = tag.unwrap();
+                let was_accepted = accepted.is_some();
+                if (200..300).contains(&r.code) && accepted.is_none() {
+                    accepted = Some((t, d.1));
+                }
+                if early.contains(&tag) {
+                    // forwarded inside receive(): the application is not handed anything
+                    let (go_on, got, unpolled) = forward(&poll_start, &tag, d);
                     ready = go_on;
-                    at = (d.0, got.1);
-                } else if r.code < 200 && !upgraded.contains(&tag) {
+                    if unpolled && d.0 < poll_start[&tag].0 {
+                        *piled.entry(tag.clone()).or_default() += 1;
+                    }
+                    after_first_2xx_asserted |= was_accepted;
+                    if r.code < 200 {
+                        want.push(mk(got, Some(tag.clone()), vec![Kind::Provisional], false, unpolled));
+                    } else {
+                        want.push(mk(got, Some(tag.clone()), vec![Kind::Session], false, unpolled));
+                        early.remove(&tag);
+                        upgraded.insert(tag);
+                        any_upgraded = true;
+                    }
+                } else if upgraded.contains(&tag) || direct_sessions.contains(&tag) {
+                    // a response for a tag that already has its session (retransmitted 2xx, late 18x):
+                    // what the application sees is not asserted, only that nothing breaks
+                    dup_seen = true;
+                    dup_markers.push((marker.clone(), if upgraded.contains(&tag) { "after-early-upgrade" } else { "direct" }));
+                    // It may go into the queue of an Early the application has not started to poll: the one whose session
+                    // it has not taken out yet, or one that an earlier such 18x got created for this tag (created or not
+                    // is not asserted; if it was, the application gets around to it as late as to any Early of that fork)
+                    let mut at = d;
+                    if poll_start.contains_key(&tag) {
+                        let (go_on, got, _) = forward(&poll_start, &tag, d);
+                        ready = go_on;
+                        at = (d.0, got.1);
+                    } else if r.code < 200 && !upgraded.contains(&tag) {
+                        let lag = r.tag.map_or(0, |j| case.lag_of(j));
+                        if lag > 0 {
+                            poll_start.insert(tag.clone(), (d.0 + lag, d.1 + lag));
+                        }
+                    }
+                    want.push(mk(at, None, vec![Kind::Session, Kind::EarlyCreated, Kind::Provisional], true, false));
+                    if busy_of(i) > 0 {
+                        // handed to the application or not: from here on the reference does not know when it polls
+                        stop_at = Some(i + 1);
+                        cut_t = Some(d.0);
+                        break 'hist;
+                    }
+                } else if r.code < 200 {
+                    want.push(mk(d, None, vec![Kind::EarlyCreated], false, false));
                     let lag = r.tag.map_or(0, |j| case.lag_of(j));
                     if lag > 0 {
                         poll_start.insert(tag.clone(), (d.0 + lag, d.1 + lag));
+                        late_early_used = true;
                     }
+                    early_order.push(tag.clone());
+                    early.insert(tag);
+                    handed = true;
+                    after_first_2xx_asserted |= was_accepted;
+                } else {
+                    want.push(mk(d, None, vec![Kind::Session], false, false));
+                    direct_sessions.insert(tag);
+                    handed = true;
+                    after_first_2xx_asserted |= was_accepted;
                 }
-                want.push(mk(at, None, vec![Kind::Session, Kind::EarlyCreated, Kind::Provisional], true, false));
-                if busy_of(i) > 0 {
-                    // handed to the application or not: from here on the reference does not know when it polls
-                    stop_at = Some(i + 1);
-                    cut_t = Some(d.0);
-                    break;
-                }
-            } else if r.code < 200 {
-                want.push(mk(d, None, vec![Kind::EarlyCreated], false, false));
-                let lag = r.tag.map_or(0, |j| case.lag_of(j));
-                if lag > 0 {
-                    poll_start.insert(tag.clone(), (d.0 + lag, d.1 + lag));
-                    late_early_used = true;
-                }
-                early_order.push(tag.clone());
-                early.insert(tag);
-                handed = true;
-                after_first_2xx_asserted |= was_accepted;
-            } else {
-                want.push(mk(d, None, vec![Kind::Session], false, false));
-                direct_sessions.insert(tag);
-                handed = true;
-                after_first_2xx_asserted |= was_accepted;
+            }
+            if handed && busy_of(i) > 0 {
+                ready = (ready.0 + busy_of(i), ready.1 + busy_of(i));
+                busy_used = true;
             }
         }
-        if handed && busy_of(i) > 0 {
-            ready = (ready.0 + busy_of(i), ready.1 + busy_of(i));
-            busy_used = true;
+        piled_max = piled_max.max(piled.values().max().copied().unwrap_or(0));
+        prev_early_tags.extend(early_order.iter().cloned());
+        attempts_done.push(AttemptEnd { accepted, ended, ready, first: g, len: hist.len() });
+        // the application sends the INVITE again only after it was told the failure of this one
+        if stop_at.is_some() || ended.is_none() {
+            break;
         }
+        g += hist.len();
+        prev_last_t = t;
     }
     let asserted = |idx: usize| stop_at.map_or(true, |s| idx < s);
+    let is_asserted_want = |w: &Want| asserted(w.idx) && !w.optional;
 
     // ---- classes ----
-    let tags: BTreeSet<_> = case.responses.iter().filter_map(|r| r.tag).collect();
+    let tags: BTreeSet<_> = all.iter().filter_map(|(_, r)| r.tag).collect();
     if tags.len() >= 2 {
         out.class("forked(>=2 tags)");
         out.class(match case.tags {
@@ -881,14 +1344,14 @@ pub fn check(case: &AppCase, out: &mut CaseOut) {
             _ => "fork-tags:numeric-lookalike",
         });
     }
-    let upgrade = !upgraded.is_empty();
+    let upgrade = any_upgraded;
     if upgrade {
         out.class("2xx-after-18x-same-tag");
     }
     if dup_seen {
         out.class("response-for-tag-with-session");
     }
-    if ended.is_some() && !expect_terminated.is_empty() {
+    if !expect_terminated.is_empty() {
         out.class("failure-terminates-early-dialogs");
     }
     if stop_at.is_some() {
@@ -907,7 +1370,7 @@ pub fn check(case: &AppCase, out: &mut CaseOut) {
     if want.iter().any(|w| w.polled_after_deadline && asserted(w.idx)) {
         out.class("arrived-inside-accepted-window-polled-after-64T1");
     }
-    if let Some((fa, fd)) = accepted {
+    if let Some((fa, fd)) = attempts_done.last().and_then(|a| a.accepted) {
         if fd > fa {
             out.class("first-2xx-queued-while-application-busy");
         }
@@ -931,7 +1394,7 @@ pub fn check(case: &AppCase, out: &mut CaseOut) {
     if want.iter().any(|w| w.to_unpolled_early && asserted(w.idx) && w.kinds[0] == Kind::Session) {
         out.class("2xx-forwarded-to-early-dialog-not-yet-polled");
     }
-    match piled.values().max().copied().unwrap_or(0) {
+    match piled_max {
         0 => {}
         1..=2 => out.class("events-piled-up-for-unpolled-early-dialog:1-2"),
         3..=4 => out.class("events-piled-up-for-unpolled-early-dialog:3-4"),
@@ -944,24 +1407,74 @@ pub fn check(case: &AppCase, out: &mut CaseOut) {
     if want.iter().any(|w| asserted(w.idx) && w.t.0 != w.t.1) {
         out.class("delivery-moment-depends-on-early-dialog-queue(interval-accepted)");
     }
-    if tags.len() >= 2 || upgrade || dup_seen || queued_any || to_unpolled_any {
+    // -- a dialog-creating response that cannot create its dialog, and what follows it
+    if !rejected_at.is_empty() {
+        out.class("dialog-creating-response-without-usable-contact:rejected,application-goes-on");
+    }
+    let after_rejected_any = want.iter().any(|w| w.after_rejected && is_asserted_want(w));
+    let mut shape_classes: BTreeSet<&'static str> = BTreeSet::new();
+    for w in want.iter().filter(|w| w.after_rejected && is_asserted_want(w)) {
+        shape_classes.insert(match w.kinds[0] {
+            Kind::EarlyCreated => "same-tag-after-rejected-response:18x-creates-early-dialog",
+            Kind::Session if w.recipient.is_none() => "same-tag-after-rejected-response:2xx-creates-session",
+            Kind::Session => "same-tag-after-rejected-response:2xx-through-early-dialog",
+            Kind::Provisional => "same-tag-after-rejected-response:18x-forwarded-to-early-dialog",
+            _ => "same-tag-after-rejected-response:failure",
+        });
+    }
+    // -- the INVITE sent again through the same initiator
+    if attempts_done.len() >= 2 {
+        out.class(if attempts_done.len() == 2 { "invite-sent-again-after-failure:2-invites" } else { "invite-sent-again-after-failure:3-invites" });
+        out.class(if case.resend_after_finished { "invite-sent-again:after-finished" } else { "invite-sent-again:right-after-the-failure" });
+        if !expect_terminated.is_empty() {
+            out.class(if case.hold_terminated { "invite-sent-again:terminated-early-kept-by-application" } else { "invite-sent-again:terminated-early-dropped" });
+        }
+        if resent_while_early_unpolled {
+            out.class("invite-sent-again:while-early-of-previous-invite-not-yet-polled");
+        }
+    } else if histories.len() >= 2 {
+        out.class("further-invite-not-sent(previous-did-not-fail-or-unasserted)");
+    }
+    let reused_any = want.iter().any(|w| w.reused_tag && is_asserted_want(w));
+    for w in want.iter().filter(|w| w.reused_tag && is_asserted_want(w)) {
+        shape_classes.insert(match w.kinds[0] {
+            Kind::EarlyCreated => "to-tag-of-terminated-early-dialog-reused-in-next-invite:18x-creates-early-dialog",
+            Kind::Session if w.recipient.is_none() => "to-tag-of-terminated-early-dialog-reused-in-next-invite:2xx-creates-session",
+            Kind::Session => "to-tag-of-terminated-early-dialog-reused-in-next-invite:2xx-through-new-early-dialog",
+            Kind::Provisional => "to-tag-of-terminated-early-dialog-reused-in-next-invite:18x-forwarded-to-new-early-dialog",
+            _ => "to-tag-of-terminated-early-dialog-reused-in-next-invite:failure",
+        });
+    }
+    for c in shape_classes {
+        out.class(c);
+    }
+    if tags.len() >= 2 || upgrade || dup_seen || queued_any || to_unpolled_any || after_rejected_any || reused_any {
         out.nontrivial(case);
     }
     out.note = Some(format!(
         "{:?}",
         obs.events
             .iter()
-            .map(|e| format!("{}ms {:?} {:?} {:?}", e.t_ms, e.recipient, e.kind, e.marker))
+            .map(|e| format!("{}ms #{} {:?} {:?} {:?}", e.t_ms, e.attempt, e.recipient, e.kind, e.marker))
             .collect::<Vec<_>>()
     ));
 
     // ---- compare: each response exactly one recipient, exactly once ----
+    // an error is accepted only as the report of a response that cannot create its dialog, at the moment that one is classified
+    let mut rejected_open = rejected_at.clone();
     for e in &obs.events {
         if let Kind::Error(msg) = &e.kind {
             let before_cut = cut_t.map_or(true, |c| e.t_ms < c);
-            if before_cut {
-                out.fail("c13.classify/error", format!("{:?} reported error `{msg}` at {} ms", e.recipient, e.t_ms));
+            if !before_cut {
+                continue;
             }
+            if e.recipient.is_none() {
+                if let Some(p) = rejected_open.iter().position(|(lo, hi)| e.t_ms >= *lo && e.t_ms <= *hi) {
+                    rejected_open.remove(p);
+                    continue;
+                }
+            }
+            out.fail("c13.classify/error", format!("{:?} reported error `{msg}` at {} ms", e.recipient, e.t_ms));
         }
     }
     for w in &want {
@@ -969,8 +1482,14 @@ pub fn check(case: &AppCase, out: &mut CaseOut) {
             continue;
         }
         let got: Vec<&Event> = obs.events.iter().filter(|e| e.marker.as_deref() == Some(w.marker.as_str())).collect();
-        let r = &case.responses[w.idx];
-        let what = format!("response {} ({}{})", w.marker, r.code, tag_of(r).map(|t| format!(" tag {t}")).unwrap_or_default());
+        let r = all[w.idx].1;
+        let what = format!(
+            "response {} ({}{}{})",
+            w.marker,
+            r.code,
+            tag_of(r).map(|t| format!(" tag {t}")).unwrap_or_default(),
+            if histories.len() > 1 { format!(", INVITE #{}", w.attempt) } else { String::new() }
+        );
         if got.is_empty() {
             if !w.optional {
                 let locus = match w.kinds[0] {
@@ -983,7 +1502,15 @@ pub fn check(case: &AppCase, out: &mut CaseOut) {
                     Kind::Failure => "failure-not-reported",
                     _ => "other",
                 };
-                out.fail(format!("c13.lost/{locus}"), format!("{what} (classified at {}..={} ms) was delivered to nobody; events {:?}", w.t.0, w.t.1, out.note));
+                // the history that makes this To-tag special, if any
+                let ctx = if w.after_rejected {
+                    "tag-of-rejected-contactless-response:"
+                } else if w.reused_tag {
+                    "tag-of-early-dialog-terminated-by-previous-invite:"
+                } else {
+                    ""
+                };
+                out.fail(format!("c13.lost/{ctx}{locus}"), format!("{what} (classified at {}..={} ms) was delivered to nobody; events {:?}", w.t.0, w.t.1, out.note));
             }
             continue;
         }
@@ -991,12 +1518,20 @@ pub fn check(case: &AppCase, out: &mut CaseOut) {
             out.fail("c13.duplicate/delivered-twice", format!("{what} was delivered {} times: {:?}", got.len(), got.iter().map(|e| (&e.recipient, &e.kind)).collect::<Vec<_>>()));
         }
         let e = got[0];
-        if !w.optional && (e.recipient != w.recipient || !w.kinds.contains(&e.kind)) {
+        if !w.optional && (e.recipient != w.recipient || !w.kinds.contains(&e.kind) || e.attempt != w.attempt) {
             // delivered into the early dialog of ANOTHER To-tag: two forks were taken for one
             let other_fork = matches!((&e.recipient, tag_of(r)), (Some(x), Some(own)) if *x != own);
+            // delivered into an early dialog that an earlier INVITE created (and whose failure terminated)
+            let other_invite = e.recipient.is_some() && e.attempt != w.attempt;
             out.fail(
-                if other_fork { "c13.classify/forwarded-to-early-dialog-of-other-tag" } else { "c13.classify/wrong-recipient-or-kind" },
-                format!("{what}: delivered to {:?} as {:?}, expected {:?} as {:?}", e.recipient, e.kind, w.recipient, w.kinds),
+                if other_invite {
+                    "c13.classify/forwarded-to-early-dialog-of-previous-invite"
+                } else if other_fork {
+                    "c13.classify/forwarded-to-early-dialog-of-other-tag"
+                } else {
+                    "c13.classify/wrong-recipient-or-kind"
+                },
+                format!("{what}: delivered to {:?} (of INVITE #{}) as {:?}, expected {:?} as {:?}", e.recipient, e.attempt, e.kind, w.recipient, w.kinds),
             );
         }
         if e.t_ms < w.t.0 || e.t_ms > w.t.1 {
@@ -1005,9 +1540,11 @@ pub fn check(case: &AppCase, out: &mut CaseOut) {
                 format!("{what}: delivered at {} ms, expected at {}..={} ms (arrival, or the application's next poll of the initiator / first poll of the early dialog)", e.t_ms, w.t.0, w.t.1),
             );
         }
-        // session contents come from THAT response
+        // session contents come from THAT response, Call-ID and local tag from the INVITE it answers
         if e.kind == Kind::Session && !w.optional {
-            if let Some(d) = &e.dialog {
+            if let (Some(d), Some((_, invite))) = (&e.dialog, obs.invites.get(w.attempt)) {
+                let call_id = invite.call_id().unwrap_or("").to_string();
+                let local_tag = invite.from_tag().unwrap_or_default();
                 let want_routes: BTreeSet<String> = routes_of(w.idx, r.record_routes).into_iter().collect();
                 let got_routes: BTreeSet<String> = d
                     .routes
@@ -1042,51 +1579,63 @@ pub fn check(case: &AppCase, out: &mut CaseOut) {
             );
         }
     }
-    // responses that must NOT surface (orphans after the transaction ended)
-    if let Some((end_idx, end_t)) = ended {
-        for e in &obs.events {
-            if let Some(m) = &e.marker {
-                let idx: usize = m[1..].parse().unwrap_or(usize::MAX);
-                if idx > end_idx {
-                    out.fail("c13.classify/delivered-after-failure", format!("{m} delivered at {} ms although the final failure m{end_idx} was handed over at {end_t} ms", e.t_ms));
+    // responses that must NOT surface (orphans after the transaction of their INVITE ended)
+    for a in &attempts_done {
+        if let Some((end_idx, end_t)) = a.ended {
+            for e in &obs.events {
+                if let Some(m) = &e.marker {
+                    let idx: usize = m[1..].parse().unwrap_or(usize::MAX);
+                    if idx > end_idx && idx < a.first + a.len {
+                        out.fail("c13.classify/delivered-after-failure", format!("{m} delivered at {} ms although the final failure m{end_idx} was handed over at {end_t} ms", e.t_ms));
+                    }
                 }
             }
         }
-        // failure terminates every early dialog
-        for (tag, t) in &expect_terminated {
-            let ok = obs.events.iter().any(|e| e.recipient.as_deref() == Some(tag.as_str()) && e.kind == Kind::Terminated && e.t_ms >= t.0 && e.t_ms <= t.1);
-            if !ok && stop_at.is_none() {
-                out.fail("c13.failure/early-dialog-not-terminated", format!("early dialog {tag} did not get Terminated at {}..={} ms", t.0, t.1));
-            }
+    }
+    // failure terminates every early dialog (of that INVITE)
+    for (k, tag, t) in &expect_terminated {
+        let ok = obs
+            .events
+            .iter()
+            .any(|e| e.attempt == *k && e.recipient.as_deref() == Some(tag.as_str()) && e.kind == Kind::Terminated && e.t_ms >= t.0 && e.t_ms <= t.1);
+        if !ok {
+            out.fail("c13.failure/early-dialog-not-terminated", format!("early dialog {tag} of INVITE #{k} did not get Terminated at {}..={} ms", t.0, t.1));
         }
     }
     // unknown markers / recipients
     for e in &obs.events {
         if let Some(m) = &e.marker {
             let idx: usize = m[1..].parse().unwrap_or(usize::MAX);
-            let after_failure = ended.map_or(false, |(end_idx, _)| idx > end_idx); // reported above
+            // reported above
+            let after_failure = idx < all.len() && attempts_done.get(all[idx].0).and_then(|a| a.ended).map_or(false, |(end_idx, _)| idx > end_idx);
             if !want.iter().any(|w| &w.marker == m) && asserted(idx) && !after_failure {
                 out.fail("c13.classify/unexpected-delivery", format!("{m} delivered to {:?} as {:?} although the reference expects no delivery", e.recipient, e.kind));
             }
         }
     }
-    // completion 64*T1 after the first 2xx (its arrival, or the moment the polling application let the transaction see
-    // it), or as soon as the application polls again after that
-    if let (Some((fa, fd)), None) = (accepted, stop_at) {
-        let fin: Vec<u64> = obs.events.iter().filter(|e| e.kind == Kind::Finished).map(|e| e.t_ms).collect();
-        let lo = ready.0.max(fa + TIMEOUT);
-        let hi = ready.1.max(fd + TIMEOUT);
-        if fin.len() != 1 || fin[0] + 2 < lo || fin[0] > hi + 2 {
-            out.fail(
-                "c13.finished/not-64T1-after-first-2xx",
-                format!("Finished at {fin:?}; first 2xx arrived at {fa}, seen by the polling application at {fd}, application polling again from {ready:?}: expected once in {lo}..={hi}"),
-            );
-        }
-    }
-    if ended.is_some() && stop_at.is_none() {
-        let fin = obs.events.iter().filter(|e| e.kind == Kind::Finished).count();
-        if fin != 1 {
-            out.fail("c13.finished/after-failure", format!("expected Finished once after the failure, got {fin}"));
+    if stop_at.is_none() {
+        for (k, a) in attempts_done.iter().enumerate() {
+            let fin: Vec<u64> = obs.events.iter().filter(|e| e.kind == Kind::Finished && e.attempt == k).map(|e| e.t_ms).collect();
+            // completion 64*T1 after the first 2xx (its arrival, or the moment the polling application made the
+            // transaction see it), or as soon as the application polls again after that
+            if let Some((fa, fd)) = a.accepted {
+                let lo = a.ready.0.max(fa + TIMEOUT);
+                let hi = a.ready.1.max(fd + TIMEOUT);
+                if fin.len() != 1 || fin[0] + 2 < lo || fin[0] > hi + 2 {
+                    out.fail(
+                        "c13.finished/not-64T1-after-first-2xx",
+                        format!("Finished at {fin:?}; first 2xx arrived at {fa}, seen by the polling application at {fd}, application polling again from {:?}: expected once in {lo}..={hi}", a.ready),
+                    );
+                }
+            }
+            if a.ended.is_some() {
+                // an application that sends the INVITE again right after the failure does not poll this one to its end
+                let polled_to_the_end = k + 1 >= histories.len() || case.resend_after_finished;
+                let expected = usize::from(polled_to_the_end);
+                if fin.len() != expected {
+                    out.fail("c13.finished/after-failure", format!("expected Finished {expected} time(s) after the failure of INVITE #{k}, got {}", fin.len()));
+                }
+            }
         }
     }
 }
@@ -1095,23 +1644,27 @@ pub fn property() -> Property {
     Property {
         fuzz: vec![],
         id: "C13",
-        rule: "a case = history of 1..10 responses to one INVITE sent through Initiator (status from {100,180,183,199,200,202,300,404,486,603}, To-tag none / 3 forks, Contact present 93%, 0..3 Record-Route, Supported timer/100rel, Require+RSeq, Session-Expires) at gaps 1..31000 ms under a paused clock (a quarter of the random cases: 6..14 responses, mostly 101-199 of fork 0, gaps 1..450 ms), x the transport (UDP / one reporting itself reliable, a third of the random cases) x the spelling of the fork To-tags (plain; differing only in letter case; prefixes of each other; one punctuation character; 40 characters differing in the last; numeric look-alikes) x the application's polling schedule (after being handed response i it does not call Initiator::receive for busy[i] in {0,3,40,600,2530,31600,33010,40020} ms; half of the random cases poll continuously) x the application's schedule for the early dialogs (it first calls Early::receive on the Early of fork j early_lag[j] in {0,7,613,2537,33017,70003} ms after being handed it, then polls it continuously and lets go of it when it yields a session or Terminated; non-zero for some fork in ~45% of the random cases; meanwhile forwarded events pile up for that early dialog). exhaustive: every history of length <= 4 (thorough 5) over {100,180,200,486} x {no tag,#0,#1}, plain tags, UDP, continuous polling. exhaustive-variants: every such history of length <= 3 (thorough 4) under case-variant tags, prefix tags, 33 s busy after every / the first / the second response, 600 ms busy after every response, reliable transport, every Early polled 33 s late, reliable + 600 ms busy + every Early 613 ms late. lazy-early: 180 of fork 0 + k = 0..8 (thorough 12) further 101-199 of fork 0 + one of 7 endings x 5 early_lag vectors x gaps 1/450 ms x both transports. Oracle = reference classifier over the set of tags seen so far and the application's ready time (FIFO queue: a response is classified at max(arrival, next poll); what is forwarded to an early dialog comes out of its Early at max(that, first poll of the Early); while an Early is not polled yet the initiator may or may not wait for it when forwarding, later moments are intervals and any delivery inside is accepted); every response carries a unique X-Seq marker, so recipients are identified exactly. Non-trivial = >=2 distinct To-tags, or a 2xx after an 18x of the same tag, or a response for a tag that already has a session, or a response that waited in the queue while the application was busy, or a response forwarded to an early dialog the application had not started to poll; distinct by case.",
+        rule: "a case = history of 1..10 responses to an INVITE sent through Initiator (status from {100,180,183,199,200,202,300,404,486,603}, To-tag none / 3 forks, Contact present 93% / absent 6% / unparsable 1%, 0..3 Record-Route, Supported timer/100rel, Require+RSeq, Session-Expires) at gaps 1..31000 ms under a paused clock (random cases: 6/15 such, 2/15 chatty = 6..14 responses, mostly 101-199 of fork 0, gaps 1..450 ms, 2/15 shaky = 2..8 responses mostly 101-299 of forks 0/1 with Contact absent 35% / unparsable 10%, 5/15 retry = 1..2 INVITEs that fail (0..3 responses mostly 101-199 with To-tag, then a 3xx-6xx, 10% a straggler behind it) followed by an INVITE with a general or shaky history of 1..6) x the transport (UDP / one reporting itself reliable, a third of the random cases) x the spelling of the fork To-tags (plain; differing only in letter case; prefixes of each other; one punctuation character; 40 characters differing in the last; numeric look-alikes) x the application's polling schedule (after being handed response i it does not call Initiator::receive for busy[i] in {0,3,40,600,2530,31600,33010,40020} ms; half of the random cases poll continuously) x the application's schedule for the early dialogs (it first calls Early::receive on the Early of fork j early_lag[j] in {0,7,613,2537,33017,70003} ms after being handed it, then polls it continuously and lets go of it when it yields a session or Terminated; non-zero for some fork in ~45% of the random cases; meanwhile forwarded events pile up for that early dialog) x the application's reaction to an error from Initiator::receive (calls receive again at once, 85% of the random cases, or gives up) x the number of INVITEs sent through the same Initiator (after a reported failure without session the application calls create_invite + send_invite again, right after the failure or after Finished; the peer answers every INVITE with its own history and re-uses its To-tags; terminated Early objects dropped or kept unpolled). exhaustive: every history of length <= 4 (thorough 5) over {100,180,200,486} x {no tag,#0,#1}, plain tags, UDP, continuous polling. exhaustive-variants: every such history of length <= 3 (thorough 4) under case-variant tags, prefix tags, 33 s busy after every / the first / the second response, 600 ms busy after every response, reliable transport, every Early polled 33 s late, reliable + 600 ms busy + every Early 613 ms late. lazy-early: 180 of fork 0 + k = 0..8 (thorough 12) further 101-199 of fork 0 + one of 7 endings x 5 early_lag vectors x gaps 1/450 ms x both transports. retry: first INVITE = one of 6 preludes of 0..2 provisional responses + 486 without tag / 404 of fork 0, second INVITE = every history of length <= 2 (thorough 3) over the alphabet, x 5 application variants (resend at once / after Finished, terminated Early dropped / kept, every Early polled 33 s late, reliable + 600 ms busy); plus two failed INVITEs before the enumerated history. rejected-then-same-fork: one of 3 preludes + a fork-0 response that cannot create its dialog (180 without Contact, 183 with unparsable Contact, 200 without Contact) + every continuation of length <= 2 (thorough 3) over the alphabet plus a Contact-less 180 of fork 0, x 3 application variants, application going on after the error. Oracle = reference classifier over the set of tags seen so far IN THIS INVITE and the application's ready time (FIFO queue: a response is classified at max(arrival, next poll); what is forwarded to an early dialog comes out of its Early at max(that, first poll of the Early); while an Early is not polled yet the initiator may or may not wait for it when forwarding, later moments are intervals and any delivery inside is accepted; a response that could not create its dialog leaves its tag unknown; a new INVITE starts with no tag known); every response carries a unique X-Seq marker and every recipient the number of its INVITE, so recipients are identified exactly. Non-trivial = >=2 distinct To-tags, or a 2xx after an 18x of the same tag, or a response for a tag that already has a session, or a response that waited in the queue while the application was busy, or a response forwarded to an early dialog the application had not started to poll, or an asserted response whose To-tag was carried by a rejected Contact-less response before, or an asserted response to a re-sent INVITE whose To-tag had an early dialog in a previous INVITE; distinct by case.",
         assumptions: vec![
             "what the application sees for a response whose tag already has a session (retransmitted 2xx, late 18x) is not asserted beyond: delivered at most once, no second dialog, nothing panics, later responses are still classified; if the application is busy after such a response nothing after it is asserted (the reference cannot know whether it was handed over)",
-            "a dialog-creating response without Contact is malformed: nothing is asserted from there on",
+            "a dialog-creating response (101-299, new To-tag) without usable Contact is malformed: Initiator::receive may report an error for it or ignore it; if it handed out nothing for it, nothing was created and the To-tag counts as unknown for the following responses (asserted when the application goes on polling); if it handed out an early dialog / session all the same, if the tag already has a session, or if the application gives up at the error, nothing is asserted from there on",
+            "an error from Initiator::receive is accepted only at the moment such a response is classified; the application then polls again at once",
             "route set is compared as a set (its order is C11's subject)",
             "non-2xx after a 2xx is not asserted",
             "'64*T1 after the first 2xx' is accepted in both readings when the application polls lazily (arrival of the 2xx / the poll that made the transaction see it): responses arriving later than 3 ms before the earlier deadline are not asserted unless Finished has certainly been reported (then they must not surface); responses that arrived before it must be delivered even if the application polls only after 64*T1",
             "To-tags are opaque tokens compared byte-wise; '%' in tags is excluded (open finding of C09/C11)",
-            "an Early is polled continuously from the application's first poll of it on (early_lag after it was handed over) and is let go of only when it yielded a session or Terminated; how many events the queue between initiator and early dialog holds is not part of the statement: whether the initiator waits for a not yet polled Early when forwarding to it is accepted either way (delivery moments are intervals), only loss / duplication / a wrong recipient are violations",
+            "an Early is polled continuously from the application's first poll of it on (early_lag after it was handed over) and is let go of only when it yielded a session or Terminated (then it is dropped, or kept without ever being polled again); how many events the queue between initiator and early dialog holds is not part of the statement: whether the initiator waits for a not yet polled Early when forwarding to it is accepted either way (delivery moments are intervals), only loss / duplication / a wrong recipient are violations",
             "the transport's reliability changes nothing in the expected classification or in the 64*T1 completion (RFC 6026 7.2: the Accepted state collects the 2xx of other forks on every transport)",
+            "an Initiator may be used for a further INVITE once the previous one was reported failed and yielded no session (examples/send_invite.rs); the failure terminated every early dialog, so every To-tag is new for the next INVITE even if the UAS re-uses it; the moment the next INVITE goes out is read from the wire log; a further INVITE after a session or before a final response is not generated; responses to the previous INVITE that arrive after its failure must not surface",
         ],
-        explanation: "exhaustive over the reduced alphabet up to the stated length (plain/UDP/continuous, and per listed variant one step shorter); the lazy-early grid is enumerated completely; random histories, tag spellings, transports and polling schedules (initiator and early dialogs) sampled",
+        explanation: "exhaustive over the reduced alphabet up to the stated length (plain/UDP/continuous, and per listed variant one step shorter); the lazy-early, retry and rejected-then-same-fork grids are enumerated completely; random histories, tag spellings, transports, polling schedules (initiator and early dialogs), reaction to errors and re-sent INVITEs sampled",
         subs: vec![
             enum_sub("exhaustive", exhaustive_cases, check),
             enum_sub("exhaustive-variants", variant_cases, check),
             enum_sub("lazy-early", lazy_early_cases, check),
-            prop_sub("random", strategy, 1200, 20000, check),
+            enum_sub("retry", retry_cases, check),
+            enum_sub("rejected-then-same-fork", rejected_cases, check),
+            prop_sub("random", strategy, 1600, 26000, check),
         ],
     }
 }
